@@ -324,15 +324,21 @@ CHECKS["C08"] = dict(
     "of Formula.__neg__/__and__/__or__): implies / iff / xor as the emitter builds them (-a | b, (-a & -b) | (a & b), (a & -b) | (-a & b)) mean "
     "implication, equivalence and exclusive or (implies_law, iff_law, xor_law); pushing the closing universal quantifier of a free nonterminal "
     "into a disjunction is sound (pushin_or), into a conjunction exactly when the quantifier's domain is not empty (pushin_and, pushin_and_mp) - "
-    "with a proved counterexample for the empty domain (pushin_and_counterexample = the known finding). Tie: sugared constraints (free "
+    "with a proved counterexample for the empty domain (pushin_and_counterexample = the known finding). The XPath CHILD step is modelled as a "
+    "translation (XPath.childMTrees: one match-expression tree per alternative of <V> with at least i occurrences of <T>, the i-th one bound) "
+    "and proved to mean what the documentation says, for every grammar, tree, environment and body: the translated quantifier ranges exactly "
+    "over the <V>-nodes of the in-tree that have an i-th <T>-labelled child, with the variable bound to that child (xpath_child_all, "
+    "xpath_child_ex, match_child, match_child_complete; the per-alternative conjunction / disjunction of the documentation equals the single "
+    "quantifier: list_is_conjunction / list_is_disjunction). Tie: ISLa's own match expressions for V.T[i] are compared with the model's, as "
+    "sets, for every (V, T, i) of fixed and random grammars; sugared constraints (free "
     "nonterminals, omitted in / names, XPath child / index / descendant axes, infix vs prefix, negative literals, derived connectives, closure "
     "in propositional combinations) and their HAND-EXPANDED core forms written from the documentation are evaluated on random trees: "
     "evaluate(sugared) must equal the verified reference evaluator's verdict on the core form.",
     design_ref="DESIGN.md section 7 C08",
-    note="PARTIAL: XPath elimination, default in-variable and fresh names are validated per template instance (31 templates x random parameters x "
+    note="PARTIAL: the descendant axis, chains of XPath steps, default in-variable and fresh names are validated per template instance (40 templates x random parameters x "
     "trees), not proved; the hand-expanded core forms are part of the trusted base. Known finding: closure pushed into conjunctions differs from "
     "the documented top-level closure over an empty domain.",
-    technique="Lean 4 theorems (derived connectives, quantifier push-in laws + proved counterexample) + differential evaluation of sugared vs hand-expanded core constraints against the verified reference",
+    technique="Lean 4 theorems (derived connectives, quantifier push-in laws + proved counterexample, XPath child-step translation = i-th labelled child) + translation comparison + differential evaluation of sugared vs hand-expanded core constraints against the verified reference",
 )
 
 CHECKS["C21"] = dict(
